@@ -1,0 +1,67 @@
+//go:build verif && amd64 && !js
+
+package websocket
+
+import (
+	"sync"
+	"unsafe"
+)
+
+// Goroutine identity for hook events. Parsing it out of runtime.Stack costs ~13 µs and serialises
+// all goroutines on the runtime's print lock (1 ms per event with 16 busy goroutines), which both
+// slows the replay campaigns down and perturbs the schedules under test. The fast path reads the
+// id from the runtime's g structure. Its offset is not hard-coded: it is found at start-up by
+// looking, in several goroutines, for the one word of g that equals the id runtime.Stack reports;
+// if no unique offset is found the slow path stays in use.
+
+func vGetg() uintptr
+
+var vGoidOff uintptr // 0 = unknown: use runtime.Stack
+
+//go:nocheckptr
+func vWordAt(g, off uintptr) uint64 {
+	return *(*uint64)(unsafe.Pointer(g + off))
+}
+
+func init() {
+	const span = 512
+	cand := map[uintptr]int{}
+	const probes = 6
+	var mu sync.Mutex
+	var wg sync.WaitGroup
+	for i := 0; i < probes; i++ {
+		wg.Add(1)
+		go func() {
+			defer wg.Done()
+			id := uint64(verifGIDSlow())
+			g := vGetg()
+			if g == 0 || id == 0 {
+				return
+			}
+			mu.Lock()
+			for off := uintptr(0); off < span; off += 8 {
+				if vWordAt(g, off) == id {
+					cand[off]++
+				}
+			}
+			mu.Unlock()
+		}()
+	}
+	wg.Wait()
+	var found []uintptr
+	for off, n := range cand {
+		if n == probes {
+			found = append(found, off)
+		}
+	}
+	if len(found) == 1 {
+		vGoidOff = found[0]
+	}
+}
+
+func verifGID() int64 {
+	if vGoidOff == 0 {
+		return verifGIDSlow()
+	}
+	return int64(vWordAt(vGetg(), vGoidOff))
+}
